@@ -244,6 +244,11 @@ class FixtureView:
             d = json.loads(json.dumps(it.d).replace("zkfix::", "rln::"))
             ni = Item(d, "rln", "fixtures")
             self.items[ni.path] = ni
+        self._canon = None
+
+    def lookup(self, name):
+        from ..facts import FactBase
+        return FactBase.lookup(self, name)
 
     def find(self, regex, kinds=("Fn", "AssocFn")):
         r = re.compile(regex)
